@@ -497,6 +497,12 @@ fn suite_of(op: &Op) -> SuiteId {
 }
 
 fn run_op(rep: &Report, ck: &str, op: &Op) -> CheckResult {
+    // a third of the operations run after a warm-up history of unrelated legal calls on this thread
+    let hs = serde_json::to_vec(op).map(|v| v.iter().fold(7u64, |a, b| a.wrapping_mul(131).wrapping_add(*b as u64))).unwrap_or(0);
+    if hs % 3 == 0 {
+        crate::history::warmup(hs, 1 + (hs % 4) as usize);
+        rep.class("after-warm-up-history");
+    }
     let res = with_suite!(suite_of(op), CS => diff::<CS>(rep, ck, op));
     match res {
         Ok(()) => {
